@@ -142,10 +142,24 @@ def build(cls, history, node_attrs=None):
         for n, d in node_attrs.items():
             G.add_node(n, **d)
     ok = True
-    for c in history:
+    for i, c in enumerate(history):
         got, exp = apply_call(G, M, tuple(_t(c)))
         ok = ok and got == exp == 'ok'
+        if i + 1 < len(history) and i < 2:
+            _probe_between_calls(G)
     return G, M, ok
+
+
+def _probe_between_calls(G):
+    """queries issued while the graph is still being built: whatever the path algorithms memoise (per graph object, per node, per
+    instant) must not survive the next add_interaction"""
+    from dynetx.algorithms import paths as P
+    try:
+        u = next(iter(G.nodes()))
+        with quiet():
+            P.temporal_dag(G, u)
+    except Exception:
+        pass
 
 
 class Ctx(object):
